@@ -29,10 +29,14 @@ vars == <<pc, flags, frame, frame0>>
 
 Rows == 1..NRows
 \* token sets of the multi-value strings ("," and "-" both delimit)
-Tok == [v \in {"", "a", "b", "a,b", "b-a", "a,a", "c-"} |->
+Tok == [v \in {"", "a", "b", "a,b", "b-a", "a,a", "c-", "a.b", "axb", "c+", "c", "(a", "a|b", "a*", "aa", "c+,c", "a.b-axb"} |->
           CASE v = "" -> {""} [] v = "a" -> {"a"} [] v = "b" -> {"b"} [] v = "a,b" -> {"a", "b"}
-            [] v = "b-a" -> {"a", "b"} [] v = "a,a" -> {"a"} [] OTHER -> {"c", ""}]
-TokenOrder == <<"", "a", "b", "c">>          \* sorted order of the tokens
+            [] v = "b-a" -> {"a", "b"} [] v = "a,a" -> {"a"} [] v = "c-" -> {"c", ""}
+            [] v = "c+,c" -> {"c+", "c"} [] v = "a.b-axb" -> {"a.b", "axb"}
+            [] OTHER -> {v}]                       \* a value without delimiter is its own single token
+\* all tokens in sorted (code point) order
+TokenOrder == <<"", "(a", "a", "a*", "a.b", "aa", "axb", "a|b", "b", "c", "c+">>
+AllTokens == {TokenOrder[i] : i \in DOMAIN TokenOrder}
 LabelCol == [r \in Rows |-> IF r % 2 = 0 THEN "0" ELSE "1"]
 
 ColNames(f) == [k \in DOMAIN f |-> f[k][1]]
@@ -101,7 +105,7 @@ Additive == Built => /\ Len(frame) >= Len(frame0)
 OneValuePerRow == Built => \A k \in DOMAIN frame : DOMAIN frame[k][2] = Rows
 DistinctNames == Built => \A j, k \in DOMAIN frame : j # k => frame[j][1] # frame[k][1]
 MultiValueRule == (Built /\ "multi" \in flags) =>
-    \A t \in {"", "a", "b", "c"} :
+    \A t \in AllTokens :
         IF t \in TokensOfCol(Vals(frame0, "M"))
         THEN \E k \in DOMAIN frame : /\ frame[k][1] = <<"MULTIEX", "M", t>>
                                      /\ \A r \in Rows : (frame[k][2][r] = "1") = (t \in Tok[Vals(frame0, "M")[r]])
